@@ -41,7 +41,7 @@ func c16Fixtures() []struct {
 		{"script-bare", tmpl.ScriptBare("v")}, {"script-dq", tmpl.ScriptDouble("v")}, {"onclick", tmpl.OnClick("a", 1)}, {"big", tmpl.Big(30)},
 		{"page", tmpl.Page("T", 5)}, {"expr", tmpl.FailingExpr("ok", false)}, {"nested", tmpl.FailingNested(false)}, {"hoist", tmpl.Hoist(true, false)},
 		{"calltree", tmpl.CallWithBlock(tmpl.Use("1"), "m", tmpl.Twice("2"))}, {"css", tmpl.CSSComponentSink(tmpl.DynCSS("color", "red"))},
-		{"quirks", tmpl.LiteralQuirks("s")},
+		{"quirks", tmpl.LiteralQuirks("s")}, {"long-literal", tmpl.LongLiteral()},
 	}
 }
 
